@@ -113,7 +113,7 @@ def ref_cms_reader(data, key, mode):
 
 
 def gen(rng):
-    kind = rng.choice(["bloom", "cbf", "cms-min", "cms-mean", "cms-meanmin", "expanding", "rotating", "cuckoo", "ccf"])
+    kind = rng.choice(["bloom", "bloom-ondisk", "cbf", "cms-min", "cms-mean", "cms-meanmin", "expanding", "rotating", "cuckoo", "ccf"])
     keys = []
     for i in range(rng.randint(0, 25)):
         keys.append("k%d" % rng.randrange(10**4) if rng.random() < 0.7 else bytes(rng.randrange(256) for _ in range(rng.randint(0, 5))) + bytes([i]))
@@ -140,6 +140,37 @@ def check(case):
         for k in probes:
             if ref_bloom_reader(data, k) != b.check(k):
                 return f"reference reader and library disagree on {k!r}"
+    elif kind == "bloom-ondisk":
+        # the on-disk filter's file IS the documented export at every quiet moment, also after a clear()
+        import os as _os
+
+        with core.Scratch() as tmp:
+            path = _os.path.join(tmp, "d.blm")
+            try:
+                b = P.BloomFilterOnDisk(path, est_elements=case["est"], false_positive_rate=case["fpr"])
+            except P.exceptions.InitializationError:
+                return None
+            try:
+                cut = len(keys) // 2 if case["seed"] % 2 == 0 else None
+                since = []
+                for i, k in enumerate(keys):
+                    if cut is not None and i == cut:
+                        b.clear()
+                        since = []
+                    b.add(k)
+                    since.append(k)
+                with open(path, "rb") as fh:
+                    data = fh.read()
+                want = ref_bloom_writer(case["est"], case["fpr"], since)
+                if data != want:
+                    return "on-disk Bloom file differs from the reference writer's file" + (" (history with clear())" if cut is not None else "")
+                if bytes(b) != want:
+                    return "bytes() of the on-disk Bloom filter differs from the reference writer's file"
+                for k in probes:
+                    if ref_bloom_reader(data, k) != b.check(k):
+                        return f"reference reader of the on-disk file and library disagree on {k!r}"
+            finally:
+                b.close()
     elif kind == "cbf":
         try:
             b = P.CountingBloomFilter(est_elements=case["est"], false_positive_rate=case["fpr"])
@@ -181,6 +212,9 @@ def check(case):
             hist = hist[:cut] + ([("rem", "other-%d" % case["seed"], net)] if net > 0 else []) + [("clear",)] + hist[cut:]
         elif case["seed"] % 3 == 1:
             hist += [("rem", k, min(n, 3)) for k, n in adds[::2]]
+            if case["seed"] % 2 == 0:
+                # more removed than added: the total is a signed 64-bit count in the documented footer
+                hist.append(("rem", "other-%d" % case["seed"], sum(n for _, n in adds) + 2))
         replayed = []
         for op in hist:
             if op[0] == "add":
